@@ -330,6 +330,10 @@ enum Unit {
     Dag { n: usize, prefix: Vec<POp> },
     Fan { w: usize },
     Tree { w: usize },
+    /// many simultaneously live values (memory slot numbers beyond one byte)
+    Huge { half: usize },
+    /// one node bound to two outputs with m others between
+    FarRepeat { m: usize },
 }
 
 fn dag_spec() -> DagSpec {
@@ -370,6 +374,12 @@ fn units(tier: Tier) -> Vec<Unit> {
         v.push(Unit::Fan { w });
         v.push(Unit::Tree { w });
     }
+    for half in [300usize, 1400] {
+        v.push(Unit::Huge { half });
+    }
+    for m in 1..=16 {
+        v.push(Unit::FarRepeat { m });
+    }
     v
 }
 
@@ -389,7 +399,7 @@ impl Check for C15 {
     }
     fn meta(&self, tier: Tier) -> Meta {
         Meta {
-            rule: "case = (program, register budget N in {3,4,5,8,255} (+all C01 budgets for families)); programs as in C01: every opcode x operand form x value alphabet, every DAG up to the node bound, fan/tree families; Bytecode::new(tape) is executed by a documentation-only interpreter (opcode numbers by name from iter_ops(), 0xFF = immediate, Mem direction by which byte is 0xFF) and compared bit-for-bit (NaN = NaN) with the VM point evaluator; markers, word count, register and memory bounds and the reserved register are checked on every bytecode".into(),
+            rule: "case = (program, register budget N in {3,4,5,8,255} (+all C01 budgets for families)); programs as in C01: every opcode x operand form x value alphabet, every DAG up to the node bound, fan/tree families, two huge programs (300 / 1400 simultaneously live values: memory slot numbers beyond one byte) and output lists with a repeated node; Bytecode::new(tape) is executed by a documentation-only interpreter (opcode numbers by name from iter_ops(), 0xFF = immediate, Mem direction by which byte is 0xFF) and compared bit-for-bit (NaN = NaN) with the VM point evaluator; markers, word count, register and memory bounds and the reserved register are checked on every bytecode".into(),
             bounds: match tier {
                 Tier::Quick => "DAG nodes <= 3, family width <= 12".into(),
                 Tier::Thorough => "DAG nodes <= 4, family width <= 24".into(),
@@ -465,6 +475,18 @@ impl Check for C15 {
                             check_program(cx, &mut sub, &q, &pts, &BC_BUDGETS);
                         }
                     }
+                }
+            }
+            Unit::Huge { half } => {
+                let p = prog::huge_prog(half, false);
+                let pts = generic_points(1);
+                check_program(cx, &mut sub, &p, &pts, &[3, 12, 255]);
+            }
+            Unit::FarRepeat { m } => {
+                for variant in 0..2 {
+                    let p = crate::c01::far_repeat_prog(m, variant);
+                    let pts = generic_points(2);
+                    check_program(cx, &mut sub, &p, &pts, &BUDGETS);
                 }
             }
             Unit::Tree { w } => {
